@@ -64,72 +64,69 @@ def run_rtcheck(fid, tier="quick", seed=0, clauses=None, case=None, regions=None
 
 
 # ---------------------------------------------------------------------------
-def _worker(job):
-    """Prove one function (runs in a forked process). Returns a plain dict."""
-    fid, kf_entries, rlimit, both = job
+_PREP = []          # [(fid, vc, info, obligations(list of (Obligation, kf entries)))]  filled before forking
+
+
+def _prepare(fid, kf_entries):
+    """Symbolic execution of one function in the main process -> obligations (z3 terms)."""
+    from pyvc import source, contracts as C
+    from pyvc.verify import PyVC
+    from pyvc.engine import Obligation
+    import z3
     t0 = time.time()
+    src = source.sources()
+    vc = PyVC(src)
+    c = C.REG[fid]
     try:
-        from pyvc import source, contracts as C
-        from pyvc.verify import PyVC, check_obligation, check_cover
-        import contracts as sidecar
-        sidecar.load_all()
-        src = source.sources()
-        vc = PyVC(src)
-        c = C.REG[fid]
         info = vc.verify_lemma(fid) if c.spec_only else vc.verify_function(fid)
-        obls = []
-        solver_time = 0.0
-        for ob in info.get("obligations", []):
-            ents = [e for e in kf_entries if e["obligation"] == ob.oid]
-            if ents:
-                # the witness of each listed finding was just reproduced on the real code, so the
-                # full obligation is known to be false: only the complement of the regions is proved
-                ob.status, ob.backend, ob.time, ob.model = "known-finding", None, 0.0, None
-            else:
-                check_obligation(vc, ob, rlimit=rlimit)
-            solver_time += ob.time
-            rec = {"oid": ob.oid, "kind": ob.kind, "label": ob.label, "status": ob.status,
-                   "backend": ob.backend, "time": round(ob.time, 3), "note": ob.note,
-                   "model": ob.model, "where": ob.where, "kf": None}
-            if ob.status == "discharged" and both:
-                # thorough: second solver must agree
-                from pyvc.verify import run_cvc5
-                import z3
-                s = z3.Solver()
-                for ax in vc.axioms():
-                    s.add(ax)
-                for f in ob.pc:
-                    s.add(f)
-                s.add(z3.Not(ob.goal))
-                r2 = run_cvc5(s.to_smt2(), timeout_s=30)
-                rec["cvc5"] = r2
-            # known-finding regions: prove the obligation on the complement
-            if ents and ob.status != "discharged":
-                import z3
-                regs = []
-                for e in ents:
-                    f, facts = vc.spec_formula(e["region"], vc.entry_state, vc.entry_env)
-                    regs.append(f)
-                from pyvc.engine import Obligation
-                ob2 = Obligation(ob.oid + "@outside-known-findings", ob.kind, ob.label, ob.pc,
-                                 z3.Or(regs + [ob.goal]))
-                check_obligation(vc, ob2, rlimit=rlimit)
-                solver_time += ob2.time
-                rec["kf"] = {"ids": [e["id"] for e in ents], "status": ob2.status,
-                             "backend": ob2.backend, "time": round(ob2.time, 3), "model": ob2.model}
-            obls.append(rec)
-        covers = []
-        for name, pcs in info.get("covers", []):
-            covers.append((name, check_cover(vc, pcs)))
-        return {"fid": fid, "status": info["status"], "error": info["error"], "sha": info.get("sha"),
-                "lines": info.get("lines"), "obligations": obls, "covers": covers,
-                "assumptions": sorted(vc.assumptions_used), "trusted": sorted(vc.trusted_used),
-                "inlined": sorted(vc.inlined), "solver_time": round(solver_time, 3),
-                "wall": round(time.time() - t0, 3)}
     except Exception:
-        return {"fid": fid, "status": "crash", "error": traceback.format_exc()[-3000:],
-                "obligations": [], "covers": [], "assumptions": [], "trusted": [], "inlined": [],
-                "solver_time": 0.0, "wall": round(time.time() - t0, 3)}
+        info = {"fid": fid, "status": "crash", "error": traceback.format_exc()[-3000:], "obligations": [], "covers": []}
+    items = []
+    for ob in info.get("obligations", []):
+        ents = [e for e in kf_entries if e.get("obligation") == ob.oid]
+        ob2 = None
+        if ents:
+            # the witness of each listed finding was just reproduced on the real code, so the full
+            # obligation is known to be false: only the complement of the regions is proved
+            regs = []
+            for e in ents:
+                f, facts = vc.spec_formula(e["region"], vc.entry_state, vc.entry_env)
+                regs.append(f)
+            ob2 = Obligation(ob.oid + "@outside-known-findings", ob.kind, ob.label, ob.pc, z3.Or(regs + [ob.goal]))
+        items.append((ob, ents, ob2))
+    info["symexec_s"] = round(time.time() - t0, 3)
+    return (fid, vc, info, items)
+
+
+def _solve_one(job):
+    fi, oi, rlimit, both = job
+    from pyvc.verify import check_obligation, check_cover, run_cvc5
+    import z3
+    fid, vc, info, items = _PREP[fi]
+    if oi < 0:
+        name, pcs = info["covers"][-oi - 1]
+        return (fi, oi, {"cover": name, "result": check_cover(vc, pcs)})
+    ob, ents, ob2 = items[oi]
+    rec = {"oid": ob.oid, "kind": ob.kind, "label": ob.label, "note": ob.note, "where": ob.where, "kf": None}
+    if ents:
+        check_obligation(vc, ob2, rlimit=rlimit)
+        rec.update(status="known-finding", backend=None, time=0.0, model=None)
+        rec["kf"] = {"ids": [e["id"] for e in ents], "status": ob2.status, "backend": ob2.backend,
+                     "time": round(ob2.time, 3), "model": ob2.model}
+        rec["solver_time"] = ob2.time
+    else:
+        check_obligation(vc, ob, rlimit=rlimit)
+        rec.update(status=ob.status, backend=ob.backend, time=round(ob.time, 3), model=ob.model)
+        rec["solver_time"] = ob.time
+        if ob.status == "discharged" and both:
+            s = z3.Solver()
+            for ax in vc.axioms():
+                s.add(ax)
+            for f in ob.pc:
+                s.add(f)
+            s.add(z3.Not(ob.goal))
+            rec["cvc5"] = run_cvc5(s.to_smt2(), timeout_s=30)
+    return (fi, oi, rec)
 
 
 def _bworker(job):
@@ -281,25 +278,48 @@ def run_check(prop, args, seed, t0):
         clause = e["obligation"].split("#")[1].split(".", 1)[1]
         regions_by_fid.setdefault(fid, {}).setdefault(clause, []).append(e["region"])
 
-    # 2. proofs (one process per function)
+    # 2. proofs: symbolic execution per function here, then every obligation solved in a forked pool
     rlimit = int(os.environ.get("PYVC_RLIMIT", "40000000" if tier == "quick" else "120000000"))
-    jobs = [(f, [e for e in active if e.get("obligation", "").startswith(f + "#")], rlimit, tier == "thorough")
-            for f in fids]
-    bfids = [f for f in cfg.get("bounded", []) ]
-    with multiprocessing.Pool(min(args.jobs, max(1, len(jobs) + len(bfids)))) as pool:
-        presults = pool.map_async(_worker, jobs, chunksize=1)
-        bjobs = [(f, tier, seed, regions_by_fid.get(f)) for f in bfids]
-        has_bounded = os.path.exists(os.path.join(HERE, "harness", "b_%s.py" % prop.lower())) \
-            and not os.environ.get("PYVC_NO_BOUNDED")
-        if has_bounded:
-            known_cases = {}
-            for e in active:
-                if e.get("bounded_check"):
-                    known_cases.setdefault(e["bounded_check"], []).append(e["case"])
-            bjobs.append(("@bounded", prop, tier, seed, known_cases))
-        bresults = pool.map_async(_bworker, bjobs, chunksize=1)
-        presults = presults.get()
-        bresults = bresults.get()
+    global _PREP
+    _PREP = [_prepare(f, [e for e in active if e.get("obligation", "").startswith(f + "#")]) for f in fids]
+    sjobs = []
+    for fi, (fid, vc, info, items) in enumerate(_PREP):
+        for oi in range(len(items)):
+            sjobs.append((fi, oi, rlimit, tier == "thorough"))
+        for ci in range(len(info.get("covers", []))):
+            sjobs.append((fi, -ci - 1, rlimit, False))
+    bfids = [f for f in cfg.get("bounded", [])]
+    bjobs = [(f, tier, seed, regions_by_fid.get(f)) for f in bfids]
+    has_bounded = os.path.exists(os.path.join(HERE, "harness", "b_%s.py" % prop.lower())) \
+        and not os.environ.get("PYVC_NO_BOUNDED")
+    if has_bounded:
+        known_cases = {}
+        for e in active:
+            if e.get("bounded_check"):
+                known_cases.setdefault(e["bounded_check"], []).append(e["case"])
+        bjobs.append(("@bounded", prop, tier, seed, known_cases))
+    ctx = multiprocessing.get_context("fork")
+    with ctx.Pool(min(args.jobs, max(1, len(sjobs) + len(bjobs)))) as pool:
+        bres_async = pool.map_async(_bworker, bjobs, chunksize=1)
+        sres = pool.map(_solve_one, sjobs, chunksize=1) if sjobs else []
+        bresults = bres_async.get()
+    presults = []
+    for fi, (fid, vc, info, items) in enumerate(_PREP):
+        obls = [None] * len(items)
+        covers = []
+        for (f2, oi, rec) in sres:
+            if f2 != fi:
+                continue
+            if oi >= 0:
+                obls[oi] = rec
+            else:
+                covers.append((rec["cover"], rec["result"]))
+        presults.append({"fid": fid, "status": info["status"], "error": info.get("error"), "sha": info.get("sha"),
+                         "lines": info.get("lines"), "obligations": obls, "covers": covers,
+                         "assumptions": sorted(vc.assumptions_used), "trusted": sorted(vc.trusted_used),
+                         "inlined": sorted(vc.inlined),
+                         "solver_time": round(sum(r.get("solver_time", 0.0) for r in obls), 3),
+                         "wall": info.get("symexec_s", 0.0)})
 
     # 3. verdicts
     violations = []     # (oid or clause, replay path, no_input)
